@@ -197,6 +197,61 @@ def _poisson_skeleton(tree) -> tuple[list[str], str]:
     return toks, "translated"
 
 
+_INPLACE = {"fill", "put", "itemset", "resize", "sort", "partition", "setfield", "__imul__", "__iand__", "__ior__", "__isub__"}
+
+
+def _modifies_mask(st: ast.AST) -> bool:
+    for n in ast.walk(st):
+        if isinstance(n, ast.Name) and n.id == "mask" and isinstance(n.ctx, (ast.Store, ast.Del)):
+            return True
+        if isinstance(n, (ast.Subscript, ast.Attribute)) and isinstance(n.ctx, ast.Store):
+            b = n
+            while isinstance(b, (ast.Subscript, ast.Attribute)):
+                b = b.value
+            if isinstance(b, ast.Name) and b.id == "mask":
+                return True
+        if isinstance(n, ast.Call):
+            if any(kw.arg == "out" and "mask" in ast.unparse(kw.value) for kw in n.keywords):
+                return True
+            if (isinstance(n.func, ast.Attribute) and isinstance(n.func.value, ast.Name) and n.func.value.id == "mask"
+                    and n.func.attr in _INPLACE):
+                return True
+    return False
+
+
+def poisson_post(tree=None) -> tuple[list[tuple[str, bool]], str]:
+    """statements executed after the last evaluation of `actual_acceleration` (the input of the tolerance test) and
+    up to `return …`: (text, modifies `mask`).  The return statement itself counts as modifying unless it returns `mask`."""
+    try:
+        if tree is None:
+            tree = parse_file(REPO / SUB)
+        fn = _method(tree, "VariableDensityPoissonMaskFunc.poisson")
+    except Untranslatable as e:
+        return POST_EXPECTED, f"skipped: {e}"
+    loops = [st for st in fn.body if isinstance(st, ast.While)]
+    if len(loops) != 1:
+        return POST_EXPECTED, "skipped: bisection loop not found"
+    loop = loops[0]
+    idx = [i for i, s in enumerate(loop.body) if isinstance(s, ast.Assign) and ast.unparse(s.targets[0]) == "actual_acceleration"]
+    if len(idx) != 1 or any(isinstance(n, ast.Assign) and ast.unparse(n.targets[0]) == "actual_acceleration"
+                            for st in fn.body if st is not loop for n in ast.walk(st)):
+        return POST_EXPECTED, "skipped: `actual_acceleration` is not assigned exactly once, inside the loop"
+    rows = []
+    short = lambda st: " ".join(ast.unparse(st).split())[:70].replace('"', "'")  # noqa: E731
+    for st in loop.body[idx[0] + 1:]:
+        rows.append(("loop: " + short(st), _modifies_mask(st)))
+    after = fn.body[fn.body.index(loop) + 1:]
+    for st in after:
+        if isinstance(st, ast.Return):
+            rows.append(("return " + short(st.value) if st.value is not None else "return", ast.unparse(st.value) != "mask" if st.value is not None else True))
+            break
+        rows.append((short(st), _modifies_mask(st)))
+    else:
+        rows.append(("no return", True))
+    return rows, "translated"
+
+
+POST_EXPECTED = [("raise_if", False), ("return mask", False)]
 POISSON_EXPECTED = [
     "while:slope_min<slope_max",
     "if:self.crop_corner",
@@ -249,6 +304,11 @@ def _extra():
         toks = POISSON_EXPECTED
     chunks.append("/-- break / raise skeleton of `VariableDensityPoissonMaskFunc.poisson` -/\n"
                   "def poissonSkeleton : List String := [\n" + ",\n".join("  " + _lean_str(t) for t in toks) + "]\n")
+    post, st = poisson_post(tree)
+    status["poisson_post_statements"] = st
+    chunks.append("/-- statements of `poisson` after the last evaluation of `actual_acceleration` up to `return`: (text, modifies `mask`) -/\n"
+                  "def poissonPost : List (String × Bool) := [\n"
+                  + ",\n".join(f"  ({_lean_str(t)}, {'true' if m else 'false'})" for t, m in post) + "]\n")
     return "\n".join(chunks), status
 
 
